@@ -853,3 +853,18 @@ impl<'g, G: AffineRepr, T: BorrowMut<Transcript>> Prover<'g, G, T> {
         (self.secrets.a_L[i], self.secrets.a_R[i], self.secrets.a_O[i])
     }
 }
+
+/// Verification-only witness overwrite during the randomized phase (guarded, add-only).
+#[cfg(feature = "verif-hooks")]
+impl<'g, G: AffineRepr, T: BorrowMut<Transcript>> RandomizingProver<'g, G, T> {
+    /// Same as [`Prover::verif_set_gate`], for gates created in the randomized phase.
+    pub fn verif_set_gate(
+        &mut self,
+        i: usize,
+        l: G::ScalarField,
+        r: G::ScalarField,
+        o: G::ScalarField,
+    ) {
+        self.prover.verif_set_gate(i, l, r, o)
+    }
+}
